@@ -31,6 +31,7 @@ macro_rules! monitors {
 }
 
 monitors! {
+    "C01" => c01,
     "C02" => c02,
     "C03" => c03,
     "C04" => c04,
